@@ -424,6 +424,17 @@ func run(c *lib.Ctx) error {
 		in := c04in{Asset: a.Path, Rep: "nosuchrep", Kind: "unknown-rep", Cfg: lib.TLCfg{Snr: -1, Tsbd: -1, Mode: "number"}, N: -1, SegID: 5, NowMS: 100000, Want: 4}
 		in.URL = fmt.Sprintf("/livesim2/%s/nosuchrep/5.m4s?nowMS=100000", a.Path)
 		jobs = append(jobs, &job{in: in, t: target{a: a, r: ref}, sweep: -1})
+		// generated subtitle tracks exist only for the configured kinds and languages
+		if ref.Kind == "video" {
+			for _, u := range []struct{ opt, rep string }{
+				{"timesubsstpp_en/", "timestpp-sv"}, {"timesubsstpp_en,sv/", "timestpp-fi"}, {"timesubsstpp_en/", "timewvtt-en"},
+				{"timesubswvtt_sv/", "timewvtt-en"}, {"timesubswvtt_sv/", "timestpp-sv"}, {"", "timestpp-en"}, {"", "timewvtt-en"},
+			} {
+				inS := c04in{Asset: a.Path, Rep: u.rep, Kind: "unknown-rep", Cfg: lib.TLCfg{Snr: -1, Tsbd: -1, Mode: "number", Extra: u.opt}, N: -1, SegID: 5, NowMS: 100000, Want: 4}
+				inS.URL = fmt.Sprintf("/livesim2/%s%s/%s/5.m4s?nowMS=100000", u.opt, a.Path, u.rep)
+				jobs = append(jobs, &job{in: inS, t: target{a: a, r: ref}, sweep: -1})
+			}
+		}
 		in2 := c04in{Asset: a.Path + "_nosuch", Rep: ref.ID, Kind: "unknown-asset", Cfg: lib.TLCfg{Snr: -1, Tsbd: -1, Mode: "number"}, N: -1, SegID: 5, NowMS: 100000, Want: 4}
 		in2.URL = fmt.Sprintf("/livesim2/%s_nosuch/%s/5.m4s?nowMS=100000", a.Path, ref.ID)
 		jobs = append(jobs, &job{in: in2, t: target{a: a, r: ref}, sweep: -1})
